@@ -1,9 +1,11 @@
 import Drivers.Chk
 import Drivers.Num
+import Drivers.TimeD
 
 def main (args : List String) : IO UInt32 := do
   let stdin ← IO.getStdin
   match args with
   | ["chk"] => Drivers.loop stdin () (fun _ l => ((), Drivers.Chk.step l)); return 0
   | ["num"] => Drivers.loop stdin () (fun _ l => ((), Drivers.Num.step l)); return 0
+  | ["time"] => Drivers.loop stdin () (fun _ l => ((), Drivers.TimeD.step l)); return 0
   | _ => IO.eprintln "usage: driver <stream>"; return 2
